@@ -178,8 +178,13 @@ PathTokens(schema) == AllNames(schema) \cup {"5", "bad", "zz", ""}
 \* values used inside viable paths (valid and invalid ones for every type)
 PathValues == {"5", "bad", ""}
 
+\* tokens with characters that are significant in URLs (+ % / space : @ = & $ ? # ; ,): valid
+\* strings, no integers, no names.  Errors render their path with an escaper; the decoded
+\* path of an error must be the input's own prefix whatever the tokens contain.
+SpecialToks == {"a+b c", "%2F/:@=&$?#;,"}
+
 \* judged paths: every viable path of at most n tokens, continued by every sequence of
 \* at most x tokens (one-token corruptions and over-long tails of every valid prefix)
 PathsFor(schema, n, x) ==
-  {v \o t : v \in LangKids(schema, n, PathValues), t \in TokSeqs(PathTokens(schema), x)} \ {<< >>}
+  {v \o t : v \in LangKids(schema, n, PathValues \cup SpecialToks), t \in TokSeqs(PathTokens(schema) \cup {"a+b c"}, x)} \ {<< >>}
 =============================================================================
